@@ -15,5 +15,8 @@ def run(ctx):
     if res is None:
         return
     bad, n = res
+    g, pols = cc.gen_policies(ctx, 600 if ctx.tier == 'quick' else 20000)
+    np_, mism = cc.printer_correspondence(ctx, pols)
+    ctx.oblige('correspondence: Policy.MarshalCedar bytes = Impl/Printer.v model (render (policy_items p)) on %d policies' % np_, 'correspondence', not mism)
     ctx.oblige('direct oracle: text round trip (parse, same head, same meaning, byte fixpoint, set/list/stream order) on %d cases' % n, 'oracle', bad == 0)
     lib.epilogue(ctx)
